@@ -14,3 +14,18 @@ ids = [c["property_id"] for c in m["checks"]]
 assert sorted(ids) == [f"C{i:02d}" for i in range(1, 21)], ids
 print("manifest ok:", len(ids), "checks")
 PY
+# committed evidence must come from runs on the UNCHANGED tree: an evidence file left over from a run against a seeded
+# change (violations, undischarged obligations) is refreshed here
+python3 - <<'PY'
+import json, glob, subprocess, sys
+assert subprocess.run("git -C /repo status --porcelain", shell=True, capture_output=True, text=True).stdout.strip() == "", "/repo is not clean"
+for f in sorted(glob.glob("evidence/C*.json")):
+    e = json.load(open(f)); cov = e.get("coverage", {})
+    stale = cov.get("discharged") != cov.get("obligations") or e.get("violations", 0) != 0 or e.get("tier") != "quick" or cov.get("proof_problems")
+    if stale:
+        pid = e["property_id"]
+        r = subprocess.run(["./check", pid, "quick"], capture_output=True, text=True)
+        print("refreshed", pid, r.stdout.strip().splitlines()[-1])
+        assert r.returncode == 0, r.stdout[-2000:]
+PY
+
